@@ -20,6 +20,10 @@ ASSUMPTIONS = ["reference formula t + (1 + s 1e-6)(I + W(r arcsec)) X evaluated 
                "covariance equality: relative Frobenius 1e-9; symmetry / PSD: 1e-12 relative"]
 
 
+class _CallerArray(np.ndarray):
+    """A caller's own ndarray subclass (the way units / labelled-array packages hold their data)."""
+
+
 def selftest():
     H.selftest()
 
@@ -93,8 +97,11 @@ def check_covariance(case):
         # exactly representable (dyadic) PSD matrix held in single precision
         B = np.rint(V / (np.abs(V).max() or 1.0) * 3.0)
         V = ((B @ B.T) / 64.0).astype(np.float32)
-    V_before = V.copy()
+    if dt == "subclass":
+        V = V.view(_CallerArray)           # an ndarray subclass of the caller's own (same memory layout, same values)
+    V_before = np.array(V, copy=True)
     got = tf.conform7(X[0], X[1], X[2], tr, V)
+    V = np.asarray(V)
     V = V.astype(float)
     if not np.array_equal(V, V_before.astype(float)):
         raise Fail("conform7 modified the caller's covariance matrix", expected=V_before, observed=V)
@@ -152,7 +159,7 @@ cases = st.fixed_dictionaries({"trans": st.one_of(_lazy(_shipped), _lazy(_shippe
                                "num": S.num_kind})
 cov_cases = st.fixed_dictionaries({"trans": st.one_of(_lazy(_shipped_with_sd), _random(True), _random(True), _lazy(_shipped), _random(False)),
                                    "X": TR.point(5e7),
-                                   "vcv": TR.psd3_as_held(), "dtype": st.sampled_from(["float64", "float64", "float64", "int64", "float32"])})
+                                   "vcv": TR.psd3_as_held(), "dtype": st.sampled_from(["float64", "float64", "float64", "int64", "float32", "subclass"])})
 
 
 def enumerate_shipped(tier, seed, shard, nshards):
